@@ -2,6 +2,8 @@
 
 Model: lean/NixModel/Pure/Tree.lean (ownership forest + links, histories of create / link / unlink /
 delete / reopen operations, queries find / parent / parent_source / parent_block / referring).
+The queries are answered by lean/NixModel/Pure/TreeShape.lean interpreting lean/NixModel/Generated/FindShape.lean, which
+harness/extract/findshape.py regenerates from the source on every run.
 Line protocol (one JSON array per line, see lean/Driver/C13.lean).  Entities are addressed by *key* =
 number of successful create calls before the one that made them; both sides count on their own.
 
@@ -743,11 +745,13 @@ def correspondence(ctx):
         k = ctx.rng.randrange(len(histories))
         samples = [{"case": histories[k][:12], "model": model_outs[k][:12]}]
     return {"evaluations": evaluations, "distinct_nontrivial": len(seen),
-            "rule": "histories of create/link/unlink/set/del metadata/delete/reopen operations interleaved with "
-                    "find / parent / parent_source / parent_block / referring queries, generated adaptively against "
+            "rule": "histories of create/link/unlink/set/del metadata/delete/reopen/copy_section(keep_id=False, deep or "
+                    "shallow, <= 4 per history)/Section.link operations interleaved with "
+                    "find / find_related / parent / parent_source / parent_block / referring queries, generated adaptively against "
                     "the live file (names from a pool of 4 so that they repeat across subtrees and levels, 30% of the histories "
                     "with 12 names for wide trees, limits "
-                    "0..depth+1 and None, 7 filter shapes, queries through cached, re-fetched and link handles, ~4% "
+                    "0..depth+1 and None, 7 filter shapes, queries (all kinds) through cached, re-fetched, found (element of a "
+                    "find_* result), metadata-link and source-link handles, ~4% "
                     "dead or wrong-kind keys); every line is compared model vs nixio. evaluations = protocol lines; "
                     "non-trivial = error outcome, non-empty find with a limit or a filter, non-None parent, non-empty "
                     "referring list, delete/reopen/unlink; distinct by (state-changing prefix, query)",
@@ -1151,20 +1155,28 @@ def replay_failure(ctx, fj):
 
 READY = True
 MANIFEST = {
-    "level_text": "Kernel-checked theorems over a Lean model of the ownership forest of sections/sources with "
-                  "metadata and source links (util/find.py, Section.parent, Source.parent_source/_find_parent_recursive/"
-                  "parent_block, Section/Source.referring_*): the fifo search equals the level-order enumeration "
-                  "restricted to the depth limit and the filter for every forest, limit and filter (each entity once "
-                  "when ids are unique; limit=None gives the whole subtree); every state reachable by any history of "
-                  "create/link/unlink/delete/reopen operations has unique ids and correct cached parents, hence parent, "
-                  "parent_source and parent_block are the containing entity through every kind of handle, and the "
-                  "referring lists are exactly the inverse of the stored links.",
-    "level_note": "The model is hand-written and tied to the code by differential histories on real HDF5 files "
-                  "(names repeated across subtrees and levels, cached / re-fetched / link-reached handles, reopen). "
-                  "Partial aspects: limits are naturals; 'unlimited' assumes tree height <= sys.maxsize; ids are "
-                  "creation counters (uuid4 freshness assumed); copies with kept ids and name/id dispatch for UUID-like "
-                  "names are outside (C20/C03). Four defects were repaired in /repo (parent by name, nested "
+    "level_text": "Kernel-checked theorems over (a) a Lean model of the ownership forest of sections/sources with "
+                  "metadata and source links and (b) the shape of nixio's own code as an ast translator reads it from "
+                  "util/find.py, section.py, source.py, block.py, file.py on every run (Generated/FindShape.lean: "
+                  "comparison operators, level constants, limit defaulting, containment keys, containers scanned by every "
+                  "referring_* property, lists joined by referring_objects), interpreted by Pure/TreeShape.lean: each of the "
+                  "four find_* methods returns, for every forest, filter and limit (0 and None included), the level-order "
+                  "enumeration restricted to the depth limit and the filter (each entity once when ids are unique; None = "
+                  "whole subtree); every state reachable by any history of create / link / unlink / delete / reopen / "
+                  "id-renewing copy_section operations has unique ids and correct cached parents, hence Section.parent, "
+                  "Source.parent_source and parent_block are the containing entity through every kind of handle, "
+                  "find_related lists parent, siblings, self and children, and the referring lists (per kind and "
+                  "referring_objects, of sections and of sources) are exactly the inverse of the stored links.",
+    "level_note": "The interpreter of the extracted shape is what the correspondence driver executes; statements the "
+                  "translator does not parameterise are matched literally (an unexpected statement is a broken tie, not a "
+                  "silent pass). The forest model and the interpreter are tied to the code by differential histories on "
+                  "real HDF5 files (names repeated across subtrees and levels, copies, handles that are cached / re-fetched "
+                  "/ found / reached through metadata and source links, reopen). Partial aspects: limits are naturals; "
+                  "'unlimited' assumes tree height <= sys.maxsize; ids are creation counters (uuid4 freshness assumed); "
+                  "copies with kept ids, copies through link-reached handles and name/id dispatch for UUID-like names are "
+                  "outside (C20/C03); data frames are outside the property's quantifier (Section has no "
+                  "referring_data_frames). Four defects were repaired in /repo in earlier rounds (parent by name, nested "
                   "referring_sources, limit=0 from File/Block, Source.referring_groups).",
-    "technique": "Lean 4 proof (induction over queue/levels, invariant over operation histories) with differential "
-                 "correspondence on generated histories",
+    "technique": "Lean 4 proof (induction over queue/levels, invariant over operation histories, decidable canonicity of "
+                 "ast-extracted code shapes) with differential correspondence on generated histories",
 }
